@@ -113,6 +113,7 @@ static void sem_case(Rng& rng) {
 
     tlx::Semaphore sem(v0);
     dsched::S().context = "Semaphore";
+    dsched::S().spurious_den = rng.chance(1, 3) ? 6 : 0;   // a third of the scenarios with spurious wake-ups
     dsched::S().begin(rng.next(), (int)rng.below(dsched::STRATEGIES));
     std::vector<dsched::thread> threads;
     for (unsigned t = 0; t < nw + ng; ++t)
@@ -163,6 +164,7 @@ static void sem_case(Rng& rng) {
     for (auto& t : threads) t.join();
     dsched::Stats st = dsched::S().end();
     verif::count("sem_histories");
+    verif::count("spurious_wakeups_injected", dsched::S().spurious_wakeups);
     verif::count("sem_rest_states_inspected", rests);
     verif::count("sem_waits_that_blocked", st.cv_blocks);
     if (g_serial) { verif::distinct(st.hash); verif::count("schedule_steps", st.steps); }
@@ -224,6 +226,7 @@ static void barrier_case(Rng& rng, const char* bname) {
     dsched::Sched& S = dsched::S();
     S.context = bname;
     S.log_ops = g_serial;
+    S.spurious_den = rng.chance(1, 3) ? 6 : 0;
     S.begin(rng.next(), (int)rng.below(dsched::STRATEGIES));
     // one counter of completed actions; written only inside the action (one thread at a time
     // if the barrier is correct; TSan reports it otherwise)
@@ -246,6 +249,7 @@ static void barrier_case(Rng& rng, const char* bname) {
     dsched::Stats st = S.end();
     S.log_ops = false;
     verif::count("barrier_histories");
+    verif::count("spurious_wakeups_injected", S.spurious_wakeups);
     verif::count("barrier_generations", gens);
     if (g_serial) { verif::distinct(st.hash); verif::count("schedule_steps", st.steps); }
 
